@@ -4,6 +4,7 @@ Monitors: M1 (node monitor with operand frames) on BinOp / UnaryOp / ShortOp exi
 numeric builtins and on the compound-index-assignment helper.  Oracle: online digit-count assertion
 with the operand widths in hand.
 """
+import enum
 import math
 import random
 from decimal import Decimal
@@ -246,6 +247,24 @@ D = Decimal
 POOL = [0, 1, -1, 7, 10 ** 30, 10 ** 50 - 1, -(10 ** 40) + 3, 2 ** 70, True, False, 1.5, 1e300, -2.5e-300, float('nan'), float('inf'), 0.1,
         D('0.1'), D('1E+1000'), D('1E+5000'), D('9.99E-500'), D('1234567890123456789012345678'), D('1234567890123456789012345678901234567890'),
         D('-3'), D('2'), D('0'), D('1E-5000'), D('NaN'), D('Infinity'), D('7.000'), D('123456789.123456789123456789123456789')]
+class Cents(int):
+    """a host number that is an int without being exactly `int`"""
+
+
+class Ratio(float):
+    """a host number that is a float without being exactly `float`"""
+
+
+class Level(enum.IntEnum):
+    LOW = 3
+    HIGH = 12345678901234567890
+
+
+class Money(D):
+    """a Decimal subclass"""
+
+
+POOL += [Cents(12345678901234567890), Cents(-7), Ratio(2.5), Ratio(1e200), Level.HIGH, Level.LOW, Money('12345678901234567890.12345'), Money('3')]
 REP = ['ab', '', [1, 2], [], [[0]], 'x' * 50]
 LITS = ['0', '1', '7', '2.5', '0.1', '1000000000000000000000000000000', '99999999999999999999999999999999999999999999999999',
         '1234567890123456789012345678.9', '3', '10', '0.0000000000000000000000000000000001']
